@@ -289,6 +289,29 @@ TRn(e) ==
      \o RoundedV("C06.vector.rplus", V(e.rplus), VAdd(a, b), e.sc)
      \o RoundedV("C06.vector.rminus", V(e.rminus), VSub(a, b), e.sc)
 
+\* C05: generic helpers, recomputed entry by entry (integer operands: exact)
+\* d_matrix_product for square n x n factors, nvar variables; layout: block i, entry (j,k) = d X(i,j) / d x_k
+TDProd(e) ==
+  LET n == e.n  nv == e.nvar  A == M(e.A)  dA == M(e.dA)  B == M(e.B)  dB == M(e.dB)  X == M(e.out)
+      Y == RForce([j \in 1..n |-> [col \in 1..(n * nv) |->
+             LET i == ((col - 1) \div nv) + 1  k == ((col - 1) % nv) + 1
+             IN RAdd(RDot([l \in 1..n |-> dA[l][(i - 1) * nv + k]], [l \in 1..n |-> B[l][j]]),
+                     RDot([l \in 1..n |-> A[i][l]], [l \in 1..n |-> dB[j][(l - 1) * nv + k]]))]])
+  IN IF Len(X) # n \/ Len(X[1]) # n * nv THEN Fail("C05.dprod.shape", R1, R0)
+     ELSE JacChk("C05.dprod", X, Y, TolC05(e.sc))
+\* d2_fog: Hessian of f o g; block i = Hessian of output i:  out[a][(i-1) nx + b] =
+\*   sum_{c,d} Jg[c][a] Hf[c][(i-1) ny + d] Jg[d][b]  +  sum_c Jf[i][c] Hg[a][(c-1) nx + b]
+TFog(e) ==
+  LET no == e.no  ny == e.ny  nx == e.nx
+      Jf == M(e.Jf)  Hf == M(e.Hf)  Jg == M(e.Jg)  Hg == M(e.Hg)  X == M(e.out)
+      Y == RForce([a \in 1..nx |-> [col \in 1..(no * nx) |->
+             LET i == ((col - 1) \div nx) + 1  b == ((col - 1) % nx) + 1
+                 inner == [c \in 1..ny |-> RDot([d \in 1..ny |-> Hf[c][(i - 1) * ny + d]], [d \in 1..ny |-> Jg[d][b]])]
+             IN RAdd(RDot([c \in 1..ny |-> Jg[c][a]], inner),
+                     RDot([c \in 1..ny |-> Jf[i][c]], [c \in 1..ny |-> Hg[a][(c - 1) * nx + b]]))]])
+  IN IF Len(X) # nx \/ Len(X[1]) # no * nx THEN Fail("C05.fog.shape", R1, R0)
+     ELSE JacChk("C05.fog", X, Y, TolC05(e.sc))
+
 ---------------------------------------------------------------------------
 Check(e) ==
   CASE e.op = "compose" -> IF FinV(e.out) THEN TCompose(e) ELSE NonFinite("C01.compose")
@@ -310,6 +333,8 @@ Check(e) ==
     [] e.op = "c04" -> IF TC04Fin(e) THEN TC04(e) ELSE NonFinite("C04.dr_exp")
     [] e.op = "dr_action" -> IF FinM(e.out) THEN TDrAction(e) ELSE NonFinite("C04.action")
     [] e.op = "c05" -> IF TC05Fin(e) THEN TC05(e) ELSE NonFinite("C05.d2r_exp")
+    [] e.op = "dprod" -> IF FinM(e.out) THEN TDProd(e) ELSE NonFinite("C05.dprod")
+    [] e.op = "fog" -> IF FinM(e.out) THEN TFog(e) ELSE NonFinite("C05.fog")
     [] e.op = "bparts" -> TBParts(e)
     [] e.op = "rn" -> TRn(e)
     [] OTHER -> <<[clause |-> "TOOL.unknown_op", err |-> e.op, tol |-> ""]>>
@@ -328,6 +353,8 @@ Stratum(e) ==
   IF e.op \in TanOps THEN ThetaStratum(Theta2(e.g, V(e.a)))
   ELSE IF e.op \in ElemOps THEN ElemStratum(e.g, V(e.a))
   ELSE IF e.op = "bparts" THEN e.sub
+  ELSE IF e.op = "fog" THEN e.storage \o "." \o e.jf
+  ELSE IF e.op = "dprod" THEN "static"
   ELSE "-"
 
 ---------------------------------------------------------------------------
